@@ -50,10 +50,14 @@ structure Rel0 (retAddr : Nat) (σ : St) (s : State) : Prop where
   ret : readMem σ.mem (σ.get X86.RSP).toNat 8 = some (leBytes retAddr 8)
   frames : s.frames = []
 
+/-- the 56 bytes above the eBPF stack (the caller's callee-saved registers pushed by the prologue and its return
+    address), which the epilogue pops: no arm may change them -/
+def topBytes (σ : St) (s : State) : Option (List (BitVec 8)) := readMem σ.mem (s.mem.stack.base + 512) 56
+
 /-- The simulation statement for one eBPF instruction `i`: whenever its arm's instruction sequence `ais` is what
     the code holds from offset `a` to offset `b` (code addresses stay below 2^63), the machine is at `a` representing `s` (whose `pc` is already past
     `i`, as in `jitStep`), and the register-transfer semantics continue with `s'`, then the machine reaches, in
-    finitely many steps, a state representing `s'` — at `b` when control falls through to the next instruction, at
+    finitely many steps, a state representing `s'` with the bytes above the eBPF stack untouched — at `b` when control falls through to the next instruction, at
     the location of the arm of `s'.pc` when a jump is taken. -/
 def ArmSim (i : Insn) : Prop :=
   ∀ (c : Cfg) (tgt : Tgt → Option Nat) (haddr : Nat → Option Nat) (pc n a b retAddr : Nat) (ais : List AI)
@@ -64,7 +68,7 @@ def ArmSim (i : Insn) : Prop :=
     σ.rip = c.codeBase + a →
     Rel0 retAddr σ s → s.pc = pc + 1 →
     EngineSem.jitExec env s i = .next s' →
-    ∃ k σ', stepsN c k σ = some σ' ∧ Rel0 retAddr σ' s' ∧
+    ∃ k σ', stepsN c k σ = some σ' ∧ Rel0 retAddr σ' s' ∧ topBytes σ' s' = topBytes σ s ∧
       ((s'.pc = pc + n ∧ σ'.rip = c.codeBase + b) ∨
        (∃ l, tgt (.pc (s'.pc : Int)) = some l ∧ σ'.rip = c.codeBase + l))
 
